@@ -246,7 +246,7 @@ def run(tier, seed):
     from harness import chainview
     chainview.cross_check(chk, B.R, B.O.chain_log)
     B.close()
-    fw.env_invariance(chk, "reg")          # the same seeded cases under -O / -OO, warnings-as-errors, other TZ / locale, a private CA bundle
+    fw.env_invariance(chk, "auth", "reg")          # the same seeded cases under -O / -OO, warnings-as-errors, other TZ / locale, a private CA bundle
     return fw.finish(chk, ob, br, TRUSTED,
                      ["clock truncation: the code uses int(time.time()); the statement carries the resulting one-second tolerance",
                       "expected verdicts for certificate windows use OpenSSL's rule notBefore <= now < notAfter"],
